@@ -190,6 +190,7 @@ def run(chk):
     chk.sample('stream', {'secret': jobs[0][0].hex(), 'plaintext': jobs[0][1].hex()[:40], 'ciphertext': b''.join(bytes(x) for x in exp_out[0]).hex()[:40]}, k=1)
     import encsess
     encsess.run(chk, 'session-large-writes', 1, rng)
+    encsess.relogin_after_failure(chk, 'session-relogin')
     chk.assumptions += ['AES itself is validated (FIPS-197 vector by the kernel, random blocks and whole streams against the `cryptography` library), not proved against a standard',
                         'RSA is the library\'s; the model covers the PKCS#1 v1.5 block format and its removal, with RSA invertibility as a hypothesis',
                         '"fresh random" is checked as "16 bytes drawn from os.urandom once"; the quality of the OS generator is outside any model']
